@@ -22,8 +22,12 @@ class S(tuple):
     def __eq__(self, other):
         if self is other:
             return True
-        if isinstance(other, S) and hash(self) != hash(other):
-            return False
+        if isinstance(other, S):
+            try:
+                if hash(self) != hash(other):
+                    return False
+            except TypeError:          # a term that carries an unhashable constant (a dict, a list)
+                pass
         return tuple.__eq__(self, other)
 
     def __ne__(self, other):
